@@ -9,10 +9,11 @@ sequences that are exhaustive only semantically (``if a and b … if a and not b
 from __future__ import annotations
 
 import ast
+from fractions import Fraction
 from typing import Dict, List, Optional, Sequence, Tuple
 
 from .model import AnalysisError, FunctionInfo
-from .sym import (FALSE, NONE, TRUE, Evaluator, Frame, Term, Unsupported, is_private_helper, satisfiable, show, subst, subterms, sym, t_and, t_not)
+from .sym import (FALSE, NONE, TRUE, Evaluator, Frame, Term, Unsupported, is_private_helper, lin, satisfiable, show, subst, subterms, sym, t_and, t_not)
 
 MAX_PATHS = 20000
 API_ITERATORS_NAMES = ("get_node_iterator", "get_branch_iterator")
@@ -325,7 +326,7 @@ class PathEnumerator:
             p.cond = t_and(p.cond, c)
             return [x for x in (p, q) if self.feasible(x.cond)]
         if isinstance(st, ast.If):
-            c = ev.expr(st.test, f)
+            c = self._resolve_lens(ev.expr(st.test, f), p)
             out: List[Path] = []
             pt = p.fork(c)
             pe = p.fork(t_not(c))
@@ -495,6 +496,22 @@ class PathEnumerator:
                         cache["&" + nm] = cache.get("&" + nm, 0) + 1
             self.ev.model._call_site_counts = cache
         return cache.get(name, 0)
+
+    def _resolve_lens(self, c: Term, p: Path) -> Term:
+        """``len(xs)`` of a local list whose elements are fixed on the path so far (a display extended by appends of displays) is that number"""
+        lens = subterms(c, lambda x: x[0] == "call" and x[1] == "len" and len(x[2]) == 1 and not x[3] and x[2][0][0] == "var")
+        if not lens:
+            return c
+        from .listflow import concrete_list
+        mp = {}
+        for t in lens:
+            try:
+                items = concrete_list(p, t[2][0])
+            except Exception:
+                items = None
+            if items is not None:
+                mp[t] = lin({}, Fraction(len(items)))
+        return subst(c, mp) if mp else c
 
     def _own_helper_name(self, call: ast.Call, fr: Frame) -> bool:
         if not self.own_class_helpers or fr.fn is None or fr.fn.cls is None or self._inline_depth > 0:
